@@ -188,6 +188,11 @@ func (s *Server) sendTransaction(t Transaction) error {
 		return nil
 	}
 
+	// Transactions are sent from one goroutine each; hold the connection's write lock for the whole
+	// transaction so that the bytes of two transactions are never interleaved on the wire.
+	client.writeMu.Lock()
+	defer client.writeMu.Unlock()
+
 	_, err := io.Copy(client.Connection, &t)
 	if err != nil {
 		return fmt.Errorf("failed to send transaction to client %v: %v", t.ClientID, err)
